@@ -127,7 +127,7 @@ def build_sinks(sinks, arrs, ctx: SinkCtx, spec, vals=None, compute=False, execu
         before = None
         expected = ref
         if cls in ("fresh", "group"):
-            if cls == "group" or s["api"] == "to_zarr":
+            if s["api"] == "to_zarr":
                 path = f"g{k}/arr" if cls == "group" else f"arr{k}"
             tgt_obj = ts
         else:
